@@ -1417,9 +1417,12 @@ func (r *Raft) InstallSnapshot(
 
 	r.lastContact = time.Now()
 
-	// The received snapshot does not contain anything new.
+	// The received snapshot does not contain anything new. Acknowledge the bytes anyway so that
+	// the leader completes the transfer and continues with the entries that follow the snapshot,
+	// instead of sending the snapshot over and over again.
 	if r.lastIncludedIndex >= request.LastIncludedIndex ||
 		r.lastApplied >= request.LastIncludedIndex {
+		response.BytesWritten = request.Offset + int64(len(request.Bytes))
 		return nil
 	}
 
